@@ -3,6 +3,7 @@ import MD.Model.Iso
 import MD.Model.Score
 import MD.Model.Ident
 import MD.Model.Config
+import MD.Model.IsoFit
 /-! JSON-lines driver: one request per line on stdin, one response per line on stdout. -/
 open Lean MD
 
@@ -144,6 +145,19 @@ def handle (j : Json) : Except String Json := do
     | "qlower" => pure (Json.mkObj [("v", ratToJson (qLower α obs))])
     | "qupper" => pure (Json.mkObj [("v", ratToJson (qUpper α obs))])
     | _ => throw "unknown functional"
+  | "isofit" =>
+    let f ← getStr j "f"
+    let α ← getRat j "level"
+    let inc ← getBool j "inc"
+    let X ← getRats j "X"
+    let y ← getRats j "y"
+    let w ← getOptRats j "w"
+    let q ← getRats j "q"
+    match isoFit (Functional.ofString? f) α inc X y w with
+    | .error e => pure (errJson e)
+    | .ok (tx, ty) =>
+      pure (Json.mkObj [("tx", ratsToJson tx), ("ty", ratsToJson ty),
+        ("pred", ratsToJson (q.map (interp tx ty)))])
   | "score" =>
     -- floats travel as bit patterns
     let kind ← getStr j "kind"
